@@ -692,6 +692,9 @@ func (ex *Exec) CallBounded(fn value, args ...value) (res value, pan *targetPani
 	return
 }
 
+// EndUnwind ends the current path as an unwinding (bound exceeded) with the given message.
+func (ex *Exec) EndUnwind(msg string) { panic(pathEnd{kind: endUnwind, msg: msg}) }
+
 // Func looks up a package-level function of the package under test.
 func (ex *Exec) Func(name string) *ssa.Function {
 	f := ex.eng.Pkg.Func(name)
